@@ -342,7 +342,13 @@ class Instr:
         self.scope_fn = None
 
     def loc(self):
-        f = self.fn.module.srcfile if self.fn is not None else '?'
+        f = getattr(self.fn, 'file', None) or (self.fn.module.srcfile if self.fn is not None else '?')
+        if f.startswith('/repo/'):
+            f = f[len('/repo/'):]
+        import os
+        rp = os.environ.get('VERIF_REPO')
+        if rp and f.startswith(rp.rstrip('/') + '/'):
+            f = f[len(rp.rstrip('/')) + 1:]
         return '%s:%d' % (f, self.line)
 
     def __repr__(self):
@@ -378,6 +384,7 @@ class Function:
         self._rpo = None
         self._loops = None
         self._pdom = None
+        self.file = None
 
     @property
     def entry(self):
@@ -1166,7 +1173,29 @@ def _resolve_lines(m):
             sid = ent[1].get('scope') if isinstance(ent[1], dict) else None
             depth += 1
         return None
+    filecache = {}
+
+    def scope_file(sid):
+        if sid in filecache:
+            return filecache[sid]
+        cur = sid
+        res = None
+        for _ in range(50):
+            ent = m.md.get(cur)
+            if not ent or not isinstance(ent[1], dict):
+                break
+            fid = ent[1].get('file')
+            if fid and fid in m.md and m.md[fid][0] == 'DIFile':
+                res = m.md[fid][1].get('filename', '').strip('"')
+                break
+            cur = ent[1].get('scope')
+            if not cur:
+                break
+        filecache[sid] = res
+        return res
     for f in m.functions.values():
+        ffile = scope_file(f.dbg) if f.dbg else None
+        f.file = ffile or m.srcfile
         last = f.line
         for ins in f.instructions():
             if ins.dbg and ins.dbg in loc:
